@@ -63,6 +63,7 @@ vars == <<nodeVars, wireVars, coVars, histVars>>
 
 ----------------------------------------------------------------------------
 Max(S) == CHOOSE x \in S : \A y \in S : y <= x
+Hole == [t |-> 0, v |-> "hole"]
 Prefix(s, k) == SubSeq(s, 1, k)
 IsPrefix(a, b) == Len(a) <= Len(b) /\ \A i \in 1..Len(a) : a[i] = b[i]
 NoHead == [t |-> 0, o |-> 0]
@@ -179,10 +180,13 @@ TruncDecision(w, ph, k, eh, fh) ==
 
 \* NewCursorAcker(a): offsets commit+1 .. a are acknowledged by f
 AcksWith(acks, commit, a, f) == [o \in DOMAIN acks |-> IF o > commit /\ o <= a THEN acks[o] \cup {f} ELSE acks[o]]
-\* the tracker advances the commit offset one offset at a time, in order
-CommitFrom(acks, commit, head, rf) ==
-    LET ok == {o \in (commit + 1)..head : \A k \in (commit + 1)..o : Cardinality(acks[k]) >= Quorum(rf)} IN
-    IF ok = {} THEN commit ELSE Max(ok)
+\* quorum_ack_tracker.go:ack - the ack that completes the quorum of a tracked offset moves the commit offset
+\* there when it lies above it.  Offsets are NOT required to complete in order: the ack of offset o stands
+\* for the whole prefix (a follower's log is synced in order), so after lost acks (stream reset) the commit
+\* offset may jump over offsets whose own acks never arrived; those complete later without effect.
+CommitFrom(old, new, commit, head, rf) ==
+    LET done == {o \in 1..head : Cardinality(old[o]) < Quorum(rf) /\ Cardinality(new[o]) >= Quorum(rf)} IN
+    Max(done \cup {commit})
 
 \* Attach the followers of `todo` one after the other (the order is irrelevant: each attachment only
 \* touches its own follower and adds acks).  x carries the variables changed so far.
@@ -198,7 +202,7 @@ AttachAll(n, t, todo, x) ==
              acks2 == AcksWith(ld.acks, ld.commit, a, f)
              ld2 == [ld EXCEPT !.acks = acks2,
                                !.cur = [@ EXCEPT ![f] = [ack |-> a, pushed |-> a, sid |-> 0]],
-                               !.commit = CommitFrom(acks2, ld.commit, ld.head, ld.rf)]
+                               !.commit = CommitFrom(ld.acks, acks2, ld.commit, ld.head, ld.rf)]
          IN IF dec.d = "refuse" \/ a > ld.head            \* ErrInvalidStatus / ErrInvalidHeadOffset
             THEN [x EXCEPT !.ok = FALSE]
             ELSE IF dec.d = "keep"
@@ -239,6 +243,7 @@ BLBegin(n, t, rf, fm) ==
         syn0 == IF create THEN Len(wal[n]) ELSE synced[n]
         eh == IF syn0 <= phantom[n] THEN NoHead ELSE LastEntryOf(wal[n], syn0)
         ld0 == [rf |-> rf, elHead |-> eh, next |-> eh.o, head |-> eh.o, commit |-> Len(applied[n]),
+                base |-> Len(applied[n]),              \* offsets up to the commit offset at creation are never tracked
                 acks |-> [o \in 1..MaxWrites |-> {}], cur |-> [f \in Nodes |-> NULL],
                 cbq |-> {}, wait |-> {}, busy |-> TRUE]
         x0 == [ok |-> TRUE, ld |-> ld0, fmap |-> fm, wal |-> wal, phantom |-> phantom, synced |-> [synced EXCEPT ![n] = syn0],
@@ -332,8 +337,7 @@ WalSync(n) ==
           /\ LET ld == lead[n]
                  newHead == Max(ld.cbq \cup {ld.head})
                  ld1 == [ld EXCEPT !.head = newHead, !.cbq = {}, !.wait = @ \cup ld.cbq,
-                                   !.commit = IF Quorum(ld.rf) = 0 THEN newHead
-                                              ELSE CommitFrom(ld.acks, ld.commit, newHead, ld.rf)]
+                                   !.commit = IF Quorum(ld.rf) = 0 THEN newHead ELSE @]
                  r == PushAll(n, ld1, streams, Len(wal[n]), Nodes)
              IN /\ LeaderCommitEffects(n, ld1, ld.commit)
                 /\ lead' = [lead EXCEPT ![n] = [r.ld EXCEPT !.wait = {w \in @ : w > ld1.commit}]]
@@ -464,7 +468,7 @@ DeliverAppend(l, f) ==
        IN IF TermCheckOnAppend /\ m.t # term[f]
           THEN \* ErrInvalidTerm: the stream is closed
                /\ streams' = closed /\ fol' = [fol EXCEPT ![f] = [@ EXCEPT !.stream = 0]]
-               /\ UNCHANGED <<status, wal, fence, kf, synced>>
+               /\ UNCHANGED <<status, wal, phantom, fence, kf, synced>>
           ELSE IF m.o <= fol[f].lastApp
           THEN \* duplicate: acknowledged without comparing
                \* faithful (DupAckSynced = FALSE): at once, even when the first copy is not synced yet
@@ -475,13 +479,17 @@ DeliverAppend(l, f) ==
                /\ kf' = IF ~DupAckSynced /\ m.o > synced[f] THEN kf \cup {"dupAck"} ELSE kf
                /\ synced' = [synced EXCEPT ![f] = IF DupAckSynced /\ m.o > @ THEN Len(wal[f]) ELSE @]
                /\ fol' = [fol EXCEPT ![f] = IF DupAckSynced /\ m.o > synced[f] THEN [@ EXCEPT !.parked = {}] ELSE @]
-               /\ UNCHANGED <<wal, fence>>
-          ELSE IF m.o # Len(wal[f]) + 1
+               /\ UNCHANGED <<wal, phantom, fence>>
+          ELSE IF m.o # Len(wal[f]) + 1 /\ Len(wal[f]) > phantom[f]
           THEN \* wal.AppendAsync refuses a gap: the stream is closed
                /\ streams' = closed /\ fol' = [fol EXCEPT ![f] = [@ EXCEPT !.stream = 0]]
                /\ status' = [status EXCEPT ![f] = "FOLLOWER"]
-               /\ UNCHANGED <<wal, fence, kf, synced>>
-          ELSE /\ wal' = [wal EXCEPT ![f] = Append(@, m.e)]
+               /\ UNCHANGED <<wal, phantom, fence, kf, synced>>
+          ELSE \* (an empty WAL accepts any first offset - checkNextOffset - as it must after a snapshot; when the
+               \* leader believes the follower holds entries it lost, the log starts with a hole: Hole entries,
+               \* counted as phantom.  Only reachable beyond a known finding.)
+               /\ wal' = [wal EXCEPT ![f] = @ \o [i \in 1..(m.o - 1 - Len(@)) |-> Hole] \o <<m.e>>]
+               /\ phantom' = [phantom EXCEPT ![f] = IF m.o # Len(wal[f]) + 1 THEN m.o - 1 ELSE @]
                \* syncCond.Signal(): an idle sync goroutine of this stream starts (or joins) a sync round; if it
                \* is inside a round already the signal stays pending (the condition's channel holds one signal)
                /\ fol' = [fol EXCEPT ![f] = [@ EXCEPT !.lastApp = m.o, !.adv = m.c, !.parked = @ \cup {s.id},
@@ -490,7 +498,7 @@ DeliverAppend(l, f) ==
                /\ streams' = [streams EXCEPT ![<<l, f>>] = rest]
                /\ fence' = [fence EXCEPT ![f] = NULL]
                /\ UNCHANGED <<kf, synced>>
-    /\ UNCHANGED <<up, ctrl, term, phantom, applied, dur, lead, sid, coVars, acked, nwrites, hcommit, leaders, budget>>
+    /\ UNCHANGED <<up, ctrl, term, applied, dur, lead, sid, coVars, acked, nwrites, hcommit, leaders, budget>>
 
 \* the leader's cursor receives the next Ack (follower_cursor.go:receiveAcks, quorum_ack_tracker.go:ack)
 DeliverAck(f, l) ==
@@ -498,10 +506,11 @@ DeliverAck(f, l) ==
     /\ lead[l] # NULL /\ lead[l].cur[f] # NULL /\ lead[l].cur[f].sid = streams[<<l, f>>].id
     /\ LET o == streams[<<l, f>>].ack[1]
            ld == lead[l]
-           known == o > ld.commit /\ o <= ld.head        \* other offsets have no tracker entry: ignored
+           \* other offsets have no tracker entry (not tracked yet, or completed and deleted): ignored
+           known == o <= ld.head /\ o > ld.base /\ Cardinality(ld.acks[o]) < Quorum(ld.rf)
            acks2 == IF known THEN [ld.acks EXCEPT ![o] = @ \cup {f}] ELSE ld.acks
            ld1 == [ld EXCEPT !.acks = acks2,
-                             !.commit = IF known THEN CommitFrom(acks2, ld.commit, ld.head, ld.rf) ELSE @,
+                             !.commit = IF known THEN CommitFrom(ld.acks, acks2, ld.commit, ld.head, ld.rf) ELSE @,
                              !.cur = [@ EXCEPT ![f] = [@ EXCEPT !.ack = o]]]
            \* BecomeLeader was waiting for the quorum on the log it found: it completes now
            \* (applyAllEntriesIntoDB, status = LEADER) while still holding the controller lock
